@@ -28,7 +28,7 @@ from .common import LEAN, VERIF
 
 GEN = os.path.join(LEAN, "DS", "Gen")
 
-FILE_ENTRIES = ["loadStructure", "Structure.read", "Structure(filename=)", "parser.parseFile"]
+FILE_ENTRIES = ["loadStructure", "Structure.read", "Structure(filename=)", "parser.parseFile", "PDFFitStructure.read"]
 STR_ENTRIES = ["Structure.readStr", "parser.parse", "parser.parseLines"]
 
 
@@ -237,6 +237,10 @@ def run_auto(entry, text, path):
                 s = ds.Structure()
                 p = s.read(path)
                 return ("ok", p.format, s)
+            if entry == "PDFFitStructure.read":
+                s = ds.PDFFitStructure()
+                p = s.read(path)
+                return ("ok", p.format, s)
             if entry == "Structure(filename=)":
                 return ("ok", None, ds.Structure(filename=path))
             if entry == "parser.parseFile":
@@ -295,10 +299,13 @@ def parse_model_auto(line):
 
 ELEMENTS = ["H", "C", "N", "O", "Na", "Cl", "Fe", "Ni", "Ti", "Ba", "Pb", "Zr", "Si", "Al", "Cu", "Mn", "La", "W"]
 TITLE_WORDS = ["nickel", "sample", "T=300K", "run", "phase", "alpha", "x=0.5", "bulk", "data", "LaMnO3", "v2", "(refined)"]
+# characters at which str.splitlines() cuts but "\\n".split does not, lone CR, tabs, outer blanks, non-ASCII letters
+SPECIAL_TITLES = ["form\x0cfeed", "vt\x0bab", "fs\x1cgs\x1drs\x1eend", "nel\x85x", "ls\u2028ps\u2029end", "cr\rmid", "tab\there", "trailing blanks   ",
+                  "  leading blanks", "\u00c5 \u00e5ngstr\u00f6m \u00e9 \u00fc \u65e5\u672c", "mixed\x0c\u2028 \u00c5\t x", "end\x85"]
 ODD_TITLES = ["", "format pdffit", "atoms", "Number of particles = 3", "data_global", "1 2 3", "C 0 0 0", "cell 1 1 1"]
 
 
-def random_structure(rng, k):
+def random_structure(rng, k, special=False):
     import numpy
     from diffpy.structure import Atom, Lattice, PDFFitStructure, Structure
 
@@ -313,6 +320,8 @@ def random_structure(rng, k):
     }[shape]
     n = rng.choice([1, 1, 2, 3, 4, 6, 9])
     title = rng.choice(ODD_TITLES) if rng.random() < 0.2 else " ".join(rng.sample(TITLE_WORDS, rng.randint(1, 3)))
+    if special and k % 2 == 1:
+        title = SPECIAL_TITLES[(k // 2) % len(SPECIAL_TITLES)] if k < 2 * len(SPECIAL_TITLES) else rng.choice(SPECIAL_TITLES)
     cls = PDFFitStructure if rng.random() < 0.4 else Structure
     s = cls(lattice=Lattice(*cell), title=title)
     for i in range(n):
@@ -495,7 +504,11 @@ def judge(case, matrix, order_names, got, model, header, ref=None):
                 fails.append(("oracle:differs-from-explicit", "auto result equals no accepting parser's explicit result (accepting: %r)" % accepting))
         g = case.get("written")
         if g is not None:
-            if matrix[g][0] != "ok":
+            if matrix[g][0] != "ok" and case.get("special_title"):
+                # a title with control / separator characters that the format cannot carry through this entry point
+                # (e.g. a lone CR in a file read with universal newlines): not representable, nothing is demanded
+                case["unrepresentable"] = (g, mode_of(case["entry"]), case.get("title"))
+            elif matrix[g][0] != "ok":
                 fails.append(("oracle:own-parser-rejects:%s" % g, "the %s parser does not accept text written by the %s writer: %r" % (g, g, matrix[g][1:])))
             elif not close_sig(sig(got[2]), sig(matrix[g][1]), 1e-4) and case.get("odd_title"):
                 # the title line is itself a record of another format: the text is a valid document of both formats
@@ -505,9 +518,9 @@ def judge(case, matrix, order_names, got, model, header, ref=None):
                 fails.append(("oracle:differs-from-written-format:%s->%s" % (g, f), "auto (detected %r) result differs from loading with the written format %r" % (f, g)))
     else:
         kind, msg = got[1], got[2]
-        if case.get("written") is not None:
-            if nones:
-                pass  # reported below
+        if case.get("written") is not None and case.get("special_title") and matrix[case["written"]][0] != "ok":
+            case["unrepresentable"] = (case["written"], mode_of(case["entry"]), case.get("title"))
+        if case.get("written") is not None and not (case.get("special_title") and matrix[case["written"]][0] != "ok"):
             fails.append(("oracle:written-text-not-detected:%s:%s" % (case["written"], kind), "auto failed on text written by the %s writer: %s: %s" % (case["written"], kind, msg[:300])))
         if kind != "StructureFormatError":
             who = foreign[0] if foreign else "?"
@@ -815,16 +828,16 @@ def load_cases(ck, rep, tmp):
     written = []
     fileno = [0]
 
-    def newfile(ext, text):
+    def newfile(ext, text, raw=None):
         fileno[0] += 1
         path = os.path.join(tmp, "s%d%s" % (fileno[0], ext))
-        with open(path, "w", encoding="utf-8", newline="") as f:
-            f.write(text)
+        with open(path, "wb") as f:
+            f.write(text.encode("utf-8") if raw is None else raw)
         return path
 
     skipped = []
     for k in range(nstru):
-        s = random_structure(rng, k)
+        s = random_structure(rng, k, special=True)
         for gi, g in enumerate(writers):
             with quiet():
                 try:
@@ -841,26 +854,40 @@ def load_cases(ck, rep, tmp):
                 for vi, (hint, ext) in enumerate(variants):
                     entry = FILE_ENTRIES[(k + gi + vi) % len(FILE_ENTRIES)]
                     cases.append({"stream": "written", "written": g, "hint": hint, "ext": ext, "entry": entry, "text": text, "stru": describe(s),
-                                  "odd_title": s.title in ODD_TITLES, "title": s.title})
+                                  "odd_title": s.title in ODD_TITLES, "title": s.title, "special_title": s.title in SPECIAL_TITLES})
                 for entry in STR_ENTRIES:
                     cases.append({"stream": "written", "written": g, "hint": "string", "ext": None, "entry": entry, "text": text, "stru": describe(s),
-                                  "odd_title": s.title in ODD_TITLES, "title": s.title})
+                                  "odd_title": s.title in ODD_TITLES, "title": s.title, "special_title": s.title in SPECIAL_TITLES})
             else:
                 for hint, ext in variants:
                     for entry in FILE_ENTRIES:
                         cases.append({"stream": "written", "written": g, "hint": hint, "ext": ext, "entry": entry, "text": text, "stru": describe(s),
-                                  "odd_title": s.title in ODD_TITLES, "title": s.title})
+                                  "odd_title": s.title in ODD_TITLES, "title": s.title, "special_title": s.title in SPECIAL_TITLES})
                 for entry in STR_ENTRIES:
                     cases.append({"stream": "written", "written": g, "hint": "string", "ext": None, "entry": entry, "text": text, "stru": describe(s),
-                                  "odd_title": s.title in ODD_TITLES, "title": s.title})
+                                  "odd_title": s.title in ODD_TITLES, "title": s.title, "special_title": s.title in SPECIAL_TITLES})
     junk = junk_texts(rng, written)
     if ck.tier != "quick":
         junk = junk + junk_texts(rng, written) + junk_texts(rng, written)
     for ji, (jk, text) in enumerate(junk):
-        entry = (FILE_ENTRIES + STR_ENTRIES)[ji % 7]
+        entry = (FILE_ENTRIES + STR_ENTRIES)[ji % len(FILE_ENTRIES + STR_ENTRIES)]
         ext = rng.choice(exts + ["", ".dat"])
         cases.append({"stream": "junk", "junkkind": jk, "written": None, "hint": "junk", "ext": ext if entry in FILE_ENTRIES else None,
                       "entry": entry, "text": text})
+    # files that are not UTF-8 text: every file entry point must report the format error (never UnicodeDecodeError)
+    xyz_t = next((t for g, t in written if g == "xyz"), "1\nt\nC 0 0 0\n")
+    pdf_t = next((t for g, t in written if g == "pdffit"), "")
+    cif_t = next((t for g, t in written if g == "cif"), "")
+    raws = [("binary", bytes(rng.randrange(256) for _ in range(200))), ("binary-ff", b"\xff\xfe\x00\x01" + bytes(rng.randrange(128, 256) for _ in range(40))),
+            ("latin1-xyz", xyz_t.replace("\n", " 5 \u00c5\n", 2).encode("latin-1", "replace")),
+            ("latin1-pdffit", pdf_t.replace("title ", "title 5 \u00c5 ", 1).encode("latin-1", "replace")),
+            ("latin1-cif", ("# 5 \u00c5\n" + cif_t).encode("latin-1", "replace")), ("utf16-xyz", xyz_t.encode("utf-16")),
+            ("cut-utf8", xyz_t.replace("\n", " \u20ac\n", 2).encode("utf-8")[:len(xyz_t.split("\n")[0]) + 4]),
+            ("latin1-rawxyz", "# \u00c5\nC 0 0 0\n".encode("latin-1"))]
+    for ri, (rk, raw) in enumerate(raws):
+        for ei, entry in enumerate(FILE_ENTRIES):
+            cases.append({"stream": "junk", "junkkind": "not-utf8:" + rk, "written": None, "hint": "junk", "ext": (exts + ["", ".dat"])[(ri + ei) % (len(exts) + 2)],
+                          "entry": entry, "text": raw.decode("latin-1"), "bytes": raw})
     return cases, formats, header, newfile, skipped
 
 
@@ -872,7 +899,7 @@ def evaluate_cases(ck, cases, formats, header, newfile):
         mode = mode_of(c["entry"])
         path = None
         if mode == "file":
-            path = newfile(c["ext"], c["text"])
+            path = newfile(c["ext"], c["text"], c.get("bytes"))
         mkey = (mode, c["text"]) if mode != "file" else None
         if mkey is not None and mkey in cache:
             matrix = cache[mkey]
@@ -898,9 +925,79 @@ def evaluate_cases(ck, cases, formats, header, newfile):
     return res
 
 
+def run_reuse_sequence(steps, tmp):
+    """ONE `getParser('auto')` object used for all steps; each result is compared with a new auto parser and with the
+    written format named explicitly.  steps = [{"written", "text", "method", "ext"}] -> list of (index, key, what)."""
+    from diffpy.structure.parsers import getParser
+
+    def call(p, st, path):
+        with quiet():
+            try:
+                if st["method"] == "parseFile":
+                    r = p.parseFile(path)
+                elif st["method"] == "parseLines":
+                    r = p.parseLines(to_lines(st["text"]))
+                else:
+                    r = p.parse(st["text"])
+                return ("ok", getattr(p, "format", None), sig(r))
+            except Exception as e:
+                return ("err", kind_of(e), str(e))
+
+    shared = getParser("auto")
+    fails = []
+    hist = []
+    for i, st in enumerate(steps):
+        path = None
+        if st["method"] == "parseFile":
+            path = os.path.join(tmp, "reuse%d%s" % (i, st.get("ext") or ""))
+            with open(path, "wb") as f:
+                f.write(st["text"].encode("utf-8"))
+        got = call(shared, st, path)
+        new = call(getParser("auto"), st, path)
+        exp = call(getParser(st["written"]), st, path)
+        if got[0] != new[0] or got[1] != new[1] or (got[0] == "ok" and got[2] != new[2]):
+            fails.append((i, "reuse:%s->%s" % (hist[-1] if hist else "start", st["written"]),
+                          "step %d (%s text via %s%s) on an auto parser that already handled %r: %s; a new auto parser: %s" % (
+                              i + 1, st["written"], st["method"], " " + st["ext"] if path else "", hist,
+                              got[:2] if got[0] == "ok" else (got[1], got[2][:120]), new[:2] if new[0] == "ok" else (new[1], new[2][:120]))))
+        elif got[0] == "ok" and exp[0] == "ok" and got[2] != exp[2]:
+            fails.append((i, "reuse-explicit:%s" % st["written"], "step %d: auto result (format %r) differs from loading as %r explicitly" % (
+                i + 1, got[1], st["written"])))
+        hist.append(st["written"])
+    return fails
+
+
+def reuse_stream(ck, cases, tmp):
+    rng = ck.rng
+    pool = sorted({(c["written"], c["text"]) for c in cases if c["stream"] == "written" and not c.get("odd_title") and not c.get("special_title")})
+    if not pool:
+        return
+    byfmt = {}
+    for g, t in pool:
+        byfmt.setdefault(g, []).append(t)
+    fmts = sorted(byfmt)
+    nseq = 14 if ck.tier == "quick" else 150
+    exts = ["", ".dat", ".cif", ".stru", ".xyz", ".pdb", ".xcfg"]
+    d = os.path.join(tmp, "reuse")
+    os.makedirs(d, exist_ok=True)
+    for k in range(nseq):
+        # every format follows every other one somewhere: start from a rotating format, then a random walk
+        order = [fmts[k % len(fmts)]] + [rng.choice(fmts) for _ in range(5)]
+        if k < len(fmts):
+            order = [fmts[k]] + [f for f in fmts if f != fmts[k]]
+        steps = [{"written": g, "text": rng.choice(byfmt[g]), "method": rng.choice(["parse", "parseLines", "parseFile"]), "ext": rng.choice(exts)}
+                 for g in order]
+        fails = run_reuse_sequence(steps, d)
+        ck.coverage["evaluations"] += len(steps)
+        ck.coverage["distinct_nontrivial"] += len(steps) - 1
+        for i, key, what in fails[:1]:
+            ck.fail(key, what, {"kind": "reuse", "steps": steps[:i + 1], "failing_step": i,
+                                "expected": "the same detected format and structure as a new getParser('auto') gives for that source"})
+
+
 def replay_dict(c, path, matrix, got, model):
     return {"kind": c["stream"], "entry": c["entry"], "written_format": c.get("written"), "hint": c.get("hint"), "ext": c.get("ext"),
-            "text": c["text"], "structure": c.get("stru"), "junkkind": c.get("junkkind"), "odd_title": c.get("odd_title"), "title": c.get("title"),
+            "text": c["text"], "bytes_hex": c["bytes"].hex() if c.get("bytes") is not None else None, "structure": c.get("stru"), "junkkind": c.get("junkkind"), "odd_title": c.get("odd_title"), "title": c.get("title"), "special_title": c.get("special_title"),
             "observed_per_format": {f: (o[0],) + tuple(o[1:3] if o[0] == "err" else ()) for f, o in matrix.items()},
             "observed_auto": [got[0], got[1], (got[2] if got[0] == "err" else None)],
             "expected_model": list(model) if model else None}
@@ -918,7 +1015,8 @@ def run(ck):
         "order: generated file names (every registered extension x stems, case/dot/dir variants, random) -> _getOrderedFormats vs model; "
         "probe: random scripted registries (0-6 formats, patterns incl. '*', '*.*', '?', multi-pattern) x outcome vectors over "
         "{structure, None, 20 exception classes} x file name x parse/parseLines/parseFile through the real P_auto vs model (format, kind, exact "
-        "message, candidates called); written: 7 writers x seeded random non-empty structures (1-9 atoms, 6 cell shapes, occupancies, "
+        "message, candidates called); reuse: one getParser('auto') object fed sequences of written texts of different formats through parse/"
+        "parseLines/parseFile, each step compared with a new auto parser and the explicit format; written: 7 writers x seeded random non-empty structures (1-9 atoms, 6 cell shapes, occupancies, "
         "iso/anisotropic U, odd titles, both classes) x {matching, every misleading, no, unknown extension} x 7 entry points; junk: fixed blank/"
         "comment texts, random words of format keywords, control/unicode characters, number tables, truncated / line-dropped / tail pieces of "
         "written documents. distinct_nontrivial = cases in which auto called more than one parser (or, for the order stream, the order "
@@ -937,6 +1035,7 @@ def run(ck):
             samples.append(ps)
         cases, formats, header, newfile, skipped = load_cases(ck, rep, tmp)
         res = evaluate_cases(ck, cases, formats, header, newfile)
+        reuse_stream(ck, cases, tmp)
         hist = {}
         for c, path, matrix, got, model, fails in res:
             ck.coverage["evaluations"] += 1
@@ -983,6 +1082,10 @@ def run(ck):
                 cells.setdefault("%s->%s" % (g, f), {}).setdefault(cell, 0)
                 cells["%s->%s" % (g, f)][cell] += 1
         ck.coverage["matrix_RejectOrAgree"] = {k: v for k, v in sorted(cells.items())}
+        unrep = sorted({c["unrepresentable"] for c, *_ in res if c.get("unrepresentable")}, key=str)
+        if unrep:
+            ck.notes.append("titles the written format cannot carry through the entry kind (own parser rejects its writer's text; nothing demanded of "
+                            "auto there): %r" % unrep)
         amb = sorted({c["ambiguous"] for c, *_ in res if c.get("ambiguous") and c["ambiguous"][1]}, key=str)
         if amb:
             ck.notes.append("texts that are valid documents of two formats because the title line is a record of the other format "
@@ -1031,7 +1134,8 @@ def run(ck):
         "agrees); the hypothesis itself is evaluated on the real writers/parsers for the generated structures, not proved",
         "fnmatch is modelled for patterns of literals, '*' and '?' (the registry uses no character class; the translator refuses one); "
         "os.path.normcase is the identity (POSIX)",
-        "undecodable (non UTF-8) files are outside the streams: open().read() raises UnicodeDecodeError before any parser logic runs",
+        "non UTF-8 files (binary, Latin-1, UTF-16, cut multi-byte sequence) are part of the junk file stream: every file entry point must "
+        "report the format error",
     ]
 
 
@@ -1068,6 +1172,15 @@ def replay(path):
         if okey:
             print("FAILS", okey, owhat)
         return 1 if okey and (okey == want or not col.is_known(okey)) else 0
+    if kind == "reuse":
+        tmp = tempfile.mkdtemp(prefix="verif_c12_replay_")
+        try:
+            fails = run_reuse_sequence(r["steps"], tmp)
+        finally:
+            shutil.rmtree(tmp, ignore_errors=True)
+        for i, k, w in fails:
+            print("FAILS", k, w)
+        return 1 if fails else 0
     if kind in ("written", "junk"):
         from diffpy.structure.parsers import inputFormats
 
@@ -1078,11 +1191,11 @@ def replay(path):
             mode = mode_of(r["entry"])
             if mode == "file":
                 p = os.path.join(tmp, "replay" + (r.get("ext") or ""))
-                with open(p, "w", encoding="utf-8", newline="") as f:
-                    f.write(r["text"])
+                with open(p, "wb") as f:
+                    f.write(bytes.fromhex(r["bytes_hex"]) if r.get("bytes_hex") else r["text"].encode("utf-8"))
             matrix = matrix_for(formats, mode, r["text"], p)
             got = run_auto(r["entry"], r["text"], p)
-            c = {"stream": kind, "entry": r["entry"], "written": r.get("written_format"), "odd_title": r.get("odd_title"), "title": r.get("title")}
+            c = {"stream": kind, "entry": r["entry"], "written": r.get("written_format"), "odd_title": r.get("odd_title"), "title": r.get("title"), "special_title": r.get("special_title")}
             order = reference_order(registry_entries(), p)
             order = [f for f in order if f in matrix] + [f for f in matrix if f not in order]
             ref, _ = reference_auto(order, lambda f: matrix[f])
